@@ -108,10 +108,16 @@ type sampleExtractor interface {
 func buildSampleExtractor(expr *logql.RangeAggregationExpr) (sampleExtractor, error) {
 	qrange := expr.Range
 	switch expr.Op {
-	case logql.RangeOpCount, logql.RangeOpRate, logql.RangeOpAbsent:
+	case logql.RangeOpCount, logql.RangeOpAbsent:
 		return &lineCounterExtractor{}, nil
 	case logql.RangeOpBytes, logql.RangeOpBytesRate:
 		return &bytesCounterExtractor{}, nil
+	case logql.RangeOpRate:
+		if qrange.Unwrap == nil {
+			return &lineCounterExtractor{}, nil
+		}
+		// rate over unwrapped values sums the values, not the lines.
+		fallthrough
 	case logql.RangeOpRateCounter,
 		logql.RangeOpAvg,
 		logql.RangeOpSum,
